@@ -573,18 +573,48 @@ def gen_walk(tokens):
             yield from gen_walk(t[2])
 
 
+LR_NEXT_TOKEN = r"^rustemo::lr::parser::LRParser::<[^>]*>::next_token$"
+
+
+def r_layout_span(F, res, rid=None, prefix=""):
+    """An EMPTY reduction is anchored at the end of the context's span ("the end of the previous token", C13-R? empty
+    forms). The layout sub-parser runs ON the content context and shifts its own tokens into it: unless the span is put
+    back, EMPTY lands behind the layout - GLR then builds a parent that ends before its last child (the parent is made by a
+    right-nulled reduction first and gets the EMPTY child later, its span is not recomputed), and LR and GLR disagree."""
+    rid = rid or res.rule("C13-R10", "the layout parser does not leave its span in the content context: on every path through "
+                          "layout_parser.parse_with_context(ctx) the first set_span(ctx, ..) afterwards restores the span read "
+                          "before (LR next_token and GLR find_lookaheads)", floor=2)
+    for label, pat in (("lr", LR_NEXT_TOKEN), ("glr", rt.GLR + "find_lookaheads$")):
+        try:
+            fn = F.one(pat)
+        except Exception:      # noqa
+            res.anchor_lost(rid, "%s token fetch not found" % label)
+            continue
+        n, bad = rt.layout_span_bracket(F, fn)
+        if not n:
+            res.anchor_lost(rid, "call of the layout parser in the %s token fetch not found" % label, fn.loc())
+        elif bad:
+            res.violation(rid, prefix + "layout-span-bracket/" + label, "%s (path ending in %s; %d of %d paths through the layout parser): "
+                          "EMPTY reductions before the next token are anchored behind the layout" % (
+                              bad[0][0], "the retry" if bad[0][1] == "backedge" else bad[0][1], len(bad), n), fn.loc())
+        else:
+            res.ok(rid, prefix + "layout-span-bracket/" + label, fn.loc(), "%d paths through the layout parser, span restored on each" % n)
+
+
 def run(ctx, res):
     F = ctx.facts("core")
     r_lr(F, res)
     r_lexer(F, res)
     r_glr(F, res)
     r_bytes(F, res)
+    r_layout_span(F, res)
     r_generated(ctx, res)
     res.explanation = (
         "Decides where span endpoints and token values come from (argument provenance over MIR, path simulation): LR shift "
         "geometry and order, reduce spans from first/last popped item, zero-width empty span at the end of the current "
         "span, span bracket around the builder call, lexer token value/span/input slice, whitespace skipping, GLR shifter "
-        "and reducer spans, LR/GLR sibling agreement on empty spans, Tree::build span hand-off; on generated recognisers: "
+        "and reducer spans, LR/GLR sibling agreement on empty spans, Tree::build span hand-off, the span bracket around the "
+        "layout sub-parser; on generated recognisers: "
         "value is a sub-slice of the input, regex anchored as a whole. Not decided: line/column and offset arithmetic "
         "(str::position_after), ordering/non-overlap of spans for concrete inputs.")
     res.assumptions = ["Context implementations store what set_span/set_position are given (LRContext, GssHead: trivial setters)"]
